@@ -96,6 +96,8 @@ def case_strategy(draw: Any) -> Dict[str, Any]:
                                          "keep-alive,\tUpgrade", "keep-alive , upgrade , x-foo",
                                          "Upgrade, keep-alive"])),
         "ws_upgrade": draw(st.sampled_from(["websocket", "WebSocket", "WEBSOCKET"])),
+        # header names reach the protocol-selection code as the client spelt them
+        "raw_headers": draw(st.booleans()),
     }
     if kind == "h2c":
         case["first"]["body_len"] = 0
@@ -263,7 +265,7 @@ def observe(case: Dict[str, Any], obs: Any) -> Dict[str, Any]:
 
 
 def run_case(case: Dict[str, Any]) -> CaseInfo:
-    cfg = {"keep_alive_timeout": T_BIG}
+    cfg = {"keep_alive_timeout": T_BIG, "h11_pass_raw_headers": bool(case.get("raw_headers"))}
     programs = {"*": [["echo"]]}
     if case["kind"] == "ws":
         programs = {"*": [["recv"], ["send", {"type": "websocket.accept"}],
